@@ -226,6 +226,15 @@ func countAtThreshold(rows []string, o opts) bool {
 	return false
 }
 
+// rdOf: the reading under which checkMatrix explained the matrix.
+func rdOf(rows []string, o opts, mo matrixObs) reading {
+	rds := readingsFor(rows, o)
+	if mo.reading < len(rds) {
+		return rds[mo.reading]
+	}
+	return rds[0]
+}
+
 // readingsFor lists the readings that can differ for this input (deduplicated by their effect).
 func readingsFor(rows []string, o opts) []reading {
 	var out []reading
@@ -366,12 +375,54 @@ func checkPair(rm *refModel, a, b string, sel []bool, w []float64, got float64) 
 	longGain := F.total >= 50000 && (bestL-lGot)*F.total > 0.005
 	if bestL-lGot > lkTol || longGain {
 		sig := "not-maximiser"
-		if !nearBetter && localMax(prof, x, lGot, lkTol) {
+		if (!nearBetter && localMax(prof, x, lGot, lkTol)) || rm.strictLocalMax(&F, x, lGot, bestD) {
 			sig = "local-maximum" // a maximiser among its neighbours, but another mode of the likelihood is higher
 		}
 		return obs, sig, fmt.Sprintf("reported %.12g has lnL %.12g but distance %.12g has lnL %.12g (gain %.3g per site, tolerance %g; %.3g over the whole alignment); comparable weight %v, differing fraction %.6g; local maxima of the likelihood:%s", got, lGot, bestD, bestL, bestL-lGot, lkTol, (bestL-lGot)*F.total, F.total, F.offDia, modes())
 	}
 	return obs, "", ""
+}
+
+// strictLocalMax: the second way to recognise the recorded finding "Brent ends in a local maximum that is not the
+// highest one". localMax works at the tolerance lkTol on the grid and does not see a mode whose prominence is
+// below 1e-6 (thorough, seed 5: a bump 5.8e-7 high at 3.68 next to the maximum at 2.32; the neighbour 10 % away,
+// on the other side of the dip, was better by 2.2e-6 and the entry was labelled not-maximiser). Here the reported
+// distance must be a maximiser among its close neighbours (0.1 % and 1 % away; 1e-8 covers the 1e-7 relative
+// precision of a reported distance) AND a dip deeper than 1e-8 must lie between it and the better distance.
+func (m *refModel) strictLocalMax(F *pairF, x, lx, better float64) bool {
+	const micro = 1e-8
+	for _, e := range []float64{1e-3, 1e-2} {
+		for _, s := range []float64{-1, 1} {
+			y := x * (1 + s*e)
+			if y < dMin || y > dMax {
+				continue
+			}
+			if m.lnL(F, y) > lx+micro {
+				return false
+			}
+		}
+	}
+	lo, hi := math.Min(x, better), math.Max(x, better)
+	for k := 1; k < 200; k++ {
+		if m.lnL(F, lo+(hi-lo)*float64(k)/200) < lx-micro {
+			return true
+		}
+	}
+	return false
+}
+
+// knownExplains: an entry that changed with the order of the rows or columns is examined like any entry, under the
+// reading that explained the first matrix: when it is a local maximum below the highest one (the recorded finding:
+// which maximum Brent reaches can depend on rounding, hence on the order), that is what is reported.
+func knownExplains(rows []string, o opts, rd reading, i, j int, got float64) (string, string) {
+	sel := selection(rows, o, rd)
+	S, _ := tables(o.Model)
+	rm := newRefModel(S, refPi(rows, o, rd, sel), o.Gamma, o.Alpha)
+	_, sig, msg := checkPair(rm, rows[i], rows[j], sel, o.Weights, got)
+	if knownClass[sig] {
+		return sig, msg
+	}
+	return "", ""
 }
 
 type matrixObs struct {
@@ -800,6 +851,10 @@ func runMatrix(c *mon.Case) {
 		for i := 0; i < n && allIn; i++ {
 			for j := 0; j < n; j++ {
 				if inRange(D2[i][j]) && !sameDist(D2[i][j], D[p[i]][p[j]]) {
+					if sig, m := knownExplains(rows2, o, rdOf(rows, o, mo), i, j, D2[i][j]); sig != "" {
+						c.Failf("mldist:"+sig, "after reordering the rows by %v: pair (%d,%d): %s\n%s\nrows=%q", p, i, j, m, o, rows2)
+						return
+					}
 					c.Failf("perm-rows:different", "rows reordered by %v: entry (%d,%d)=%.12g, was (%d,%d)=%.12g\n%s\nrows=%q", p, i, j, D2[i][j], p[i], p[j], D[p[i]][p[j]], o, rows)
 					return
 				}
@@ -821,6 +876,10 @@ func runMatrix(c *mon.Case) {
 		for i := 0; i < n && allIn; i++ {
 			for j := 0; j < n; j++ {
 				if inRange(D2[i][j]) && !sameDist(D2[i][j], D[i][j]) {
+					if sig, m := knownExplains(rows2, o2, rdOf(rows, o, mo), i, j, D2[i][j]); sig != "" {
+						c.Failf("mldist:"+sig, "after reordering the columns by %v: pair (%d,%d): %s\n%s\nrows=%q", p, i, j, m, o2, rows2)
+						return
+					}
 					c.Failf("perm-cols:different", "columns reordered by %v: entry (%d,%d)=%.12g, was %.12g\n%s\nrows=%q", p, i, j, D2[i][j], D[i][j], o, rows)
 					return
 				}
